@@ -127,9 +127,9 @@ func nextSignificant(ts []Tok, i int) int {
 	return -1
 }
 
-// resync reports whether b continues like a for the next few tokens.
-func resync(a, b []Tok) bool {
-	n := 4
+// resync reports whether b continues like a for the next w tokens.
+func resync(a, b []Tok, w int) bool {
+	n := w
 	if len(a) < n {
 		n = len(a)
 	}
@@ -215,9 +215,30 @@ func DiffToks(src, out []Tok) *TokDiff {
 			return d
 		}
 	}
+	// A dropped or inserted run is recognised by the two sequences continuing
+	// alike after it; a long common continuation is preferred, but a second
+	// difference nearby must not hide the first, so shorter ones are accepted.
+	for _, w := range []int{4, 3, 2} {
+		if dd := diffRun(src, out, i, w, d, ctx); dd != nil {
+			return dd
+		}
+	}
+	if i < len(src) && i < len(out) {
+		d.Kind = "changed"
+		d.Class = "token-changed." + TokName(src[i].Type) + "-to-" + TokName(out[i].Type)
+		d.Msg = fmt.Sprintf("token %d differs: source %s, output %s; %s", i, TokString(src[i:i+1]), TokString(out[i:i+1]), ctx())
+		return d
+	}
+	d.Kind = "changed"
+	d.Class = "token-count-changed"
+	d.Msg = fmt.Sprintf("token sequences have different lengths (%d vs %d); %s", len(src), len(out), ctx())
+	return d
+}
+
+func diffRun(src, out []Tok, i, w int, d *TokDiff, ctx func() string) *TokDiff {
 	// dropped run: the output continues like the source after skipping src[i:i+k]
 	for k := 1; k <= 16 && i+k <= len(src); k++ {
-		if resync(src[i+k:], out[i:]) {
+		if resync(src[i+k:], out[i:], w) {
 			d.Kind = "dropped"
 			run := src[i : i+k]
 			d.Run = run
@@ -245,7 +266,7 @@ func DiffToks(src, out []Tok) *TokDiff {
 	}
 	// inserted run: the source continues like the output after skipping out[i:i+k]
 	for k := 1; k <= 16 && i+k <= len(out); k++ {
-		if resync(out[i+k:], src[i:]) {
+		if resync(out[i+k:], src[i:], w) {
 			d.Kind = "inserted"
 			d.Run = out[i : i+k]
 			d.Class = "tokens-inserted." + runName(d.Run)
@@ -253,16 +274,7 @@ func DiffToks(src, out []Tok) *TokDiff {
 			return d
 		}
 	}
-	if i < len(src) && i < len(out) {
-		d.Kind = "changed"
-		d.Class = "token-changed." + TokName(src[i].Type) + "-to-" + TokName(out[i].Type)
-		d.Msg = fmt.Sprintf("token %d differs: source %s, output %s; %s", i, TokString(src[i:i+1]), TokString(out[i:i+1]), ctx())
-		return d
-	}
-	d.Kind = "changed"
-	d.Class = "token-count-changed"
-	d.Msg = fmt.Sprintf("token sequences have different lengths (%d vs %d); %s", len(src), len(out), ctx())
-	return d
+	return nil
 }
 
 // ---- structure summaries from the hclsyntax AST (the reference reading) ----
